@@ -19,7 +19,7 @@
       Omega : T^-1   dt, eta, filter tau : T   surface pressure : M L^-1 T^-2
       log_surface_pressure: log of a pressure, i.e. an additive shift of the
       constant mode by -log(factor s pressure). *)
-From Dino Require Import Base.Ops Base.Sums Model.Sigma Thm.Dual.
+From Dino Require Import Base.Ops Base.Sums Model.Sigma Model.Implicit Model.PrimEq Thm.Dual.
 Local Open Scope F_scope.
 
 (** exponent vectors *)
@@ -46,6 +46,9 @@ Definition d_gas : dim := mkdim 2 (-2) 0 (-1).           (* R, R_vapor, Cp *)
 Definition d_grav : dim := mkdim 1 (-2) 0 0.             (* g *)
 Definition d_pressure : dim := mkdim (-1) (-2) 1 0.
 Definition d_temp_rate : dim := mkdim 0 (-1) 0 1.        (* temperature tendency *)
+Definition d_vel : dim := mkdim 1 (-1) 0 0.              (* cos_lat_u *)
+Definition d_invlen : dim := mkdim (-1) 0 0 0.           (* cos_lat_grad_log_sp: gradient on a sphere of radius a *)
+Definition d_accel : dim := mkdim 1 (-2) 0 0.            (* terms of the momentum equation *)
 
 Section Scaling.
   Context {F : Type} {o : Ops F}.
@@ -127,4 +130,12 @@ Section Scaling.
   (** Held-Suarez: sigma * exp(lnps) / p0 *)
   Definition p_over_p0 (E : F -> F) (sigma lnps p0 : F) : F := sigma * E lnps / p0.
 
+  (** *** one nodal column of the primitive equations (Model/PrimEq.v) seen through
+      multipliers: [ku] velocity, [kr] rates, [kT] temperature, [kg] inverse
+      length, [kR] gas constant; kappa, sigma, sec2_lat are dimensionless *)
+  Definition scale_ncol (ku kr kT kg : F) (x : @NCol F) : NCol :=
+    mkNCol (scol ku (n_u x)) (scol ku (n_v x)) (scol kr (n_vort x)) (scol kr (n_div x)) (scol kT (n_temp x))
+           (kg * n_gx x) (kg * n_gy x) (n_sec2 x) (kr * n_f x).
+  Definition scale_cfg (kT kR : F) (c : @PEcfg F) : PEcfg :=
+    mkPE (cK c) (kR * cR c) (ckappa c) (cls c) (cb c) (scol kT (cTref c)).
 End Scaling.
